@@ -2,6 +2,7 @@
 Handlers for the example-distribution constructors and uniform binning (C11, C19): exact tables.
 -/
 import DitModel.Core.Examples
+import DitModel.Core.Binning
 import DitModel.Drv.Constr
 namespace Dit.Drv
 open Dit
@@ -36,7 +37,17 @@ def hUniformBin : J → Option J
       pure (listJ natJ (xs.map (uniformBin nr bins lo range eps)))
   | _ => none
 
+/-- `mbin [bins, [x…]]` → `{"labels": [label or null…], "thresholds": [t_0 … t_bins]}` of `maxent_binning`. -/
+def hMaxentBin : J → Option J
+  | .arr [bins, xs] => do
+      let bins ← bins.toNat?
+      let xs ← J.toList? J.toRat? xs
+      let labs := maxentBinning nr bins xs
+      pure (J.arr [listJ (fun l => match l with | some k => natJ k | none => J.null) labs,
+                   listJ ratJ (maxentThresholds nr bins xs)])
+  | _ => none
+
 def exampleHandlers : List (String × (J → Option J)) :=
-  [("example", hExample), ("ubin", hUniformBin)]
+  [("example", hExample), ("ubin", hUniformBin), ("mbin", hMaxentBin)]
 
 end Dit.Drv
